@@ -16,6 +16,7 @@ import core
 from stages.common import *
 
 MON_C01_HTTP = {"Mon_C01_HTTP"}
+MON_C14_HTTP = {"RelayNotWedged"}           # run_c14: no request leaves pendingLk held / the watch loop stopped
 MON_HTTP_INFO = {"Mon_HTTP_Info"}          # /info returns the named chain's info (not part of C01's statement)
 DRIFT = {"Conformance", "Harness"}
 PKG = "./handler/http"
@@ -237,5 +238,136 @@ def run(ctx, monitors=MON_C01_HTTP):
     drift = [a for a in alarms if a["mon"] in DRIFT]
     if drift:
         ctx.inconclusive.append("HTTP API: %d differences between server.go and HttpRelay.tla (model drift / harness), first: %s"
+                                % (len(drift), drift[0]))
+    return ok
+
+
+# ------------------------------------------------------------------------------------------------ C14
+# The hand-over between the watch loop and the parked requests at its real grain (SpecFine of HttpRelay.tla).
+
+_FINE_STEP = {"FRecv": "WatchLock", "FRelease": "WatchRelease", "Cancel": "Cancel", "FFailRecv": "StreamFail",
+              "ReqStart": "ReqStart", "ReqCheck2": "ReqCheck2", "ReqLatest": "ReqLatest", "Reconnect": "Reconnect",
+              "NodeAdvance": "NodeAdvance"}
+
+
+def project(acts):
+    """fine-grain behaviour -> the steps the harness can schedule (what the goroutines do by themselves -
+    FLock, FSend, FUnlock, FDone, FUnreg, FTake - happens eagerly in the real code)"""
+    out = []
+    for a, g in acts:
+        if a.startswith("E") and a[1:] in _FINE_STEP:      # graph labels of the environment steps (EFRecv, ECancel, ..)
+            a = a[1:]
+        if a in _FINE_STEP:
+            out.append({"a": _FINE_STEP[a], "args": list(g)})
+    return out
+
+
+def _cancel_in_section(steps):
+    held = False
+    for st in steps:
+        if st["a"] == "WatchLock":
+            held = True
+        elif st["a"] == "WatchRelease":
+            held = False
+        elif st["a"] == "Cancel" and held:
+            return True
+    return False
+
+
+def run_c14(ctx, monitors=MON_C14_HTTP):
+    """C14 for the HTTP relay: whatever a client does with a parked request (in particular: go away while the
+    watch loop hands the new round over), the loop does not block holding pendingLk, every handler returns and
+    the relay still answers."""
+    q = ctx.quick
+    W = int(os.environ.get("VERIF_TLC_WORKERS", "0")) or None
+    rng = random.Random(ctx.seed * 104729 + 3)
+    scripts = []
+    rp = getattr(ctx, "replay", None)
+    if rp:
+        j = json.load(open(rp))
+        if j.get("stage") != "httphandover":
+            ctx.notes.append("HttpRelay hand-over: replay file %s belongs to another stage; stage skipped" % rp)
+            return True
+        scripts = [j["script"]]
+    else:
+        # 1. design: every interleaving of (cancel, select, unregister) with (lock, send.., unlock), channel capacity 1
+        ctx.model_check("HttpRelay", "MC_HttpRelay_handover.cfg", workers=W, timeout=600)
+        # 2. sanity of the monitor + the critical schedule: with an unbuffered channel TLC must find the wedge
+        r = ctx.model_check("HttpRelay", "MC_HttpRelay_handover_cap0.cfg", expect_ok=False, workers=1, timeout=300)
+        acts = [(m.group(1), [int(x) for x in m.group(2).split(",")[1:]] if m.group(2) else []) for m in _ACT.finditer(r.out)]
+        if r.violated == "Inv_RelayNotWedged" and acts and acts[0][0] == "Init":
+            scripts.append({"name": "tlc-cap0-cex", "cur": acts[0][1][0], "mode": "fine", "steps": project(acts[1:])})
+            ctx.notes.append("MC_HttpRelay_handover_cap0: with an unbuffered waiter channel TLC finds the wedge after %d steps "
+                             "(cancel between http.watch.locked and the send); that schedule is replayed on the real handler"
+                             % (len(acts) - 1))
+        else:
+            ctx.inconclusive.append("MC_HttpRelay_handover_cap0 did not produce the expected counterexample (%s)"
+                                    % (r.violated or r.error or "none"))
+        # 3. schedules: transition tour of the eager fine-grain graph
+        r = ctx.model_check("HttpRelay", "MC_HttpRelay_handover_tour.cfg", workers=1, timeout=300,
+                            extra=["-dump", "dot,actionlabels", "graph.dot"])
+        if not r.finished:
+            raise core.Inconclusive("HttpRelay hand-over graph did not finish")
+        inits, out, nedges = parse_graph(os.path.join(r.workdir, "graph.dot"))
+        if not inits or not nedges:
+            raise core.Inconclusive("could not read the hand-over state graph dumped by TLC")
+        walks, left = tour(inits, out, 40, rng)
+        if left:
+            ctx.inconclusive.append("hand-over transition tour left %d edges uncovered" % len(left))
+        cand = []
+        for cur, steps in walks:
+            st = project([(e[2], e[3]) for e in steps])
+            if any(x["a"] in ("WatchLock", "Cancel") for x in st):
+                cand.append({"cur": cur, "mode": "fine", "steps": st})
+        crit = [c for c in cand if _cancel_in_section(c["steps"])]
+        rest = [c for c in cand if not _cancel_in_section(c["steps"])]
+        total = len(cand)
+        if q:
+            rng.shuffle(crit)
+            rng.shuffle(rest)
+            cand = crit[:6] + rest[:4]
+        for k, c in enumerate(cand):
+            c["name"] = "handover-%d" % k
+            scripts.append(c)
+        ctx.notes.append("hand-over graph (eager): %d states, %d edges; %d walks touch the hand-over, %d of them cancel a "
+                         "request while the loop holds the lock; replayed %d" % (r.distinct, nedges, total, len(crit), len(cand)))
+    for i, sc in enumerate(scripts):
+        sc.setdefault("scheme", SCHEMES[i % len(SCHEMES)])
+    inp = os.path.join(ctx.work, "httphandover-scripts.ndjson")
+    write_scripts(inp, scripts)
+    trace = run_harness(ctx, PKG, "TestVerifHttpRelay", "httphandover.ndjson",
+                        env={"VERIF_IN": inp, "VERIF_NOBUILTIN": "1"}, timeout=600 if q else 1500)
+    ok, alarms, res = ctx.validate_trace("Trace_HttpRelay", "Trace_HttpRelay.cfg", trace, name="trace-handover", timeout=900)
+    if ok:
+        ctx.traces += count_lines(trace, "Reset")
+    ctx.extra["http_handover_releases"] = count_lines(trace, "WatchRelease")
+    ctx.extra["http_handover_probes"] = count_lines(trace, "Probe")
+    ctx.sample({"stage": "httphandover", "trace_head": sample_lines(trace, 3, 300)})
+    events = [json.loads(l) for l in open(trace)]
+    by_name = {sc["name"]: sc for sc in scripts}
+    seen = set()
+    for a in sorted(alarms, key=lambda a: a["line"]):
+        if a["mon"] in monitors:
+            sig = {"stage": "httphandover", "mon": a["mon"], "part": a["part"], "at": a["shape"]}
+            key = json.dumps(sig, sort_keys=True)
+            first = key not in seen
+            seen.add(key)
+            diag = events[a["line"] - 1].get("diag", "") if 0 < a["line"] <= len(events) else ""
+            replay = None
+            if first:
+                d = os.path.join(core.ROOT, "replays")
+                os.makedirs(d, exist_ok=True)
+                replay = os.path.join(d, "%s-%s.json" % (ctx.prop, hashlib.sha1(key.encode()).hexdigest()[:10]))
+                with open(replay, "w") as fh:
+                    json.dump({"property": ctx.prop, "seed": ctx.seed, "tier": ctx.tier, "signature": sig, "alarm": a,
+                               "diagnosis": diag, "stage": "httphandover", "script": by_name.get(a["scenario"])}, fh, indent=1)
+            ctx.alarm(sig, "HTTP relay: RelayNotWedged - %s (%s; trace line %s, scenario %s)%s"
+                      % (a["part"], a["shape"], a["line"], a["scenario"], ("; blocked: " + diag) if diag else ""), replay=replay)
+        elif a["mon"] not in DRIFT:
+            ctx.notes.append("HTTP relay hand-over: alarm %s (%s) outside the requested monitors at trace line %s"
+                             % (a["mon"], a["part"], a["line"]))
+    drift = [a for a in alarms if a["mon"] in DRIFT]
+    if drift:
+        ctx.inconclusive.append("HTTP relay hand-over: %d differences between server.go and HttpRelay.tla (model drift / harness), first: %s"
                                 % (len(drift), drift[0]))
     return ok
